@@ -31,6 +31,9 @@ RULE = ("close causes {force_disconnect, disconnect, cancel, reuse probe, EOF, R
 
 
 def shard(ctx: Ctx) -> None:
+    from vf.sim import device as _device_fw  # noqa: PLC0415
+
+    _device_fw.ROTATE_FIRMWARE = True    # the firmware flavour of default devices rotates (hello without a name, API 1.2 / 1.8 / 1.12, deep sleep)
     sweep.standard_sweep(ctx, PROP)
     sweep.connect_fault_sweep(ctx, PROP)   # resolver / TCP / setsockopt / rejection worlds: a failed phase must leave the object CLOSED
     sweep.same_turn_pairs_sweep(ctx, PROP)
